@@ -214,7 +214,7 @@ pub fn run(ctx: &mut Ctx) {
         }
     });
     // ---- (c) random histories
-    let cases = ctx.tier.pick(3_000u32, 200_000);
+    let cases = ctx.tier.pick(30_000u32, 600_000);
     let nthreads = ctx.threads as u32;
     ctx.parallel(|ti, _n, st| {
         let f = run_proptest(gen::history_strategy(12), cases / nthreads + 1, seed ^ 0xC04C ^ ((ti as u64) << 36), st, |h, st| {
